@@ -527,7 +527,59 @@ def _per_type_arguments(order: int, supply: int, via: int) -> bool:
     return result(ok, True)
 
 
+# ---- whole-number FLOATS for Int positions through variables (JSON decoders produce them for 3e9 or 2147483648.0)
+FLOAT_VALUES = (5.0, -0.0, 2147483647.0, 2147483648.0, -2147483648.0, -2147483649.0, 3e9, 1e20, -1e20, 1.5, 2147483647.5, 4294967296.0)
+FLOAT_POSITIONS = (("Int", "$v", lambda v: v), ("Int!", "$v", lambda v: v), ("[Int]", "$v", lambda v: [1, v]), ("[Int!]", "$v", lambda v: [v]), ("In", "$v", lambda v: {"req": v}),
+                   ("Int", "{req: $v}", lambda v: v), ("Int", "[1, $v]", lambda v: v), ("[[Int]]", "$v", lambda v: [[v]]))
+
+
+def _ints_in(x, out):
+    if isinstance(x, dict):
+        for y in x.values():
+            _ints_in(y, out)
+    elif isinstance(x, (list, tuple)):
+        for y in x:
+            _ints_in(y, out)
+    elif x is not None:
+        out.append(x)
+    return out
+
+
+def _int_whole_floats(fv: int, pos: int) -> bool:
+    """
+    pre: 0 <= fv < len(FLOAT_VALUES) and 0 <= pos < len(FLOAT_POSITIONS)
+    post: _
+    """
+    V, (t, use, wrap) = pick(fv, FLOAT_VALUES), pick(pos, FLOAT_POSITIONS)
+    with untraced():
+        world = make_world()
+        calls = []
+
+        def resolver(root, ctx, info, **kw):
+            calls.append(kw)
+            return 1
+        argt = {"{req: $v}": "In", "[1, $v]": "[Int]"}.get(use, t)
+        q = ObjectType("Query", [Field("f", Int, args=[Argument("x", parse_texpr(world, argt))], resolver=resolver)])
+        res = graphql_blocking(Schema(q), "query ($v: %s) { f(x: %s) }" % (t, use), variables={"v": wrap(V)})
+        inrange = V == int(V) and -2147483648 <= V <= 2147483647
+        if not inrange:
+            # a fractional or out-of-range number never reaches a resolver at an Int position: the request is refused
+            ok = calls == [] and bool(res.errors)
+        else:
+            # the specification lets a server accept a whole-number float for Int; if it does, what arrives is that integer
+            got = [g for g in _ints_in([({"req": c["x"].get("req")} if isinstance(c.get("x"), dict) else c) for c in calls], []) if g != 1 or V == 1.0]
+            ok = (calls == [] and bool(res.errors)) or (all(type(g) is int and -2147483648 <= g <= 2147483647 for g in got) and got == [int(V)])
+    return result(ok, not inrange)
+
+
 CONDITIONS = [
+    Cond(
+        name="int_whole_floats", fn=_int_whole_floats, quick=60, thorough=60,
+        bound="%d float values (whole numbers inside, at and outside the signed 32-bit edges, 3e9, 1e20, fractional) given through a VARIABLE x %d Int positions (variable itself, list item, nested list item, "
+              "input-object field, variable inside an object / list literal): outside the range or fractional -> the request is refused and no resolver runs; a whole number in range -> refused, or "
+              "delivered as that integer" % (len(FLOAT_VALUES), len(FLOAT_POSITIONS)),
+        symbolic={"fv,pos": "choice"}, assumptions=["oracle: spec 3.5.1 input coercion of Int (a server MAY accept whole-number floats in range)"], witness={"fv": 3, "pos": 0},
+    ),
     Cond(
         name="nullable_var_nonnull_arg", fn=_nullable_var_nonnull_arg, quick=60, thorough=60,
         bound="non-null argument fed by a nullable variable that declares a non-null default (allowed by the spec's variable-position rule): variable omitted / explicit null / value, 4 type families",
